@@ -108,3 +108,111 @@ def atoms_of(t, is_atom):
         if a is not None:
             out.add(a)
     return out
+
+
+# ---------------------------------------------------------------------------
+# value ranges (closed hull; unknown = (-inf, inf))
+INF = float('inf')
+TOP = (-INF, INF)
+
+
+def _mul(a, b):
+    ps = []
+    for x in a:
+        for y in b:
+            if (x == 0 and abs(y) == INF) or (y == 0 and abs(x) == INF):
+                ps.append(0.0)
+            else:
+                ps.append(x * y)
+    return (min(ps), max(ps))
+
+
+def rng(t, env=None, memo=None):
+    """closed interval hull of a numeric term; `env` maps atom terms to intervals"""
+    if memo is None:
+        memo = {}
+    k = id(t)
+    if k in memo:
+        return memo[k][1]
+    r = _rng(t, env or {}, memo)
+    memo[k] = (t, r)
+    return r
+
+
+def _rng(t, env, memo):
+    if t in env:
+        return env[t]
+    n = _num(t)
+    if n is not None:
+        return (n, n)
+    if not isinstance(t, tuple) or not t:
+        return TOP
+    tag = t[0]
+    if tag == 'ite':
+        a = rng(t[2], env, memo)
+        b = rng(t[3], env, memo)
+        return (min(a[0], b[0]), max(a[1], b[1]))
+    if tag == 'bin':
+        op = t[1]
+        a = rng(t[2], env, memo)
+        b = rng(t[3], env, memo)
+        if op == 'Add':
+            return (a[0] + b[0], a[1] + b[1])
+        if op == 'Sub':
+            return (a[0] - b[1], a[1] - b[0])
+        if op == 'Mul':
+            return _mul(a, b)
+        if op == 'Div':
+            if b[0] > 0 or b[1] < 0:
+                return _mul(a, (1.0 / b[1], 1.0 / b[0]))
+            return TOP
+        if op == 'Rem':
+            if b[0] == b[1] and b[0] > 0:
+                return (-b[0], b[0])
+        return TOP
+    if tag == 'un' and t[1] == 'Neg':
+        a = rng(t[2], env, memo)
+        return (-a[1], -a[0])
+    if tag == 'cast':
+        return rng(t[2], env, memo)
+    if tag == 'app':
+        f = t[1]
+        args = t[2]
+        if f == 'acos':
+            return (0.0, math.pi)
+        if f == 'asin' or f == 'atan':
+            return (-math.pi / 2, math.pi / 2)
+        if f == 'atan2':
+            return (-math.pi, math.pi)
+        if f in ('sin', 'cos'):
+            return (-1.0, 1.0)
+        if f == 'abs':
+            a = rng(args[0], env, memo)
+            if a[0] >= 0:
+                return a
+            if a[1] <= 0:
+                return (-a[1], -a[0])
+            return (0.0, max(-a[0], a[1]))
+        if f == 'to_degrees':
+            a = rng(args[0], env, memo)
+            return (a[0] * 180.0 / math.pi, a[1] * 180.0 / math.pi)
+        if f == 'to_radians':
+            a = rng(args[0], env, memo)
+            return (a[0] * math.pi / 180.0, a[1] * math.pi / 180.0)
+        if f in ('floor', 'ceil', 'round', 'trunc'):
+            a = rng(args[0], env, memo)
+            return (math.floor(a[0]) if abs(a[0]) != INF else a[0], math.ceil(a[1]) if abs(a[1]) != INF else a[1])
+        if f.endswith('cap_angle_360'):
+            return (0.0, 360.0)
+        if f.endswith('cap_angle_180'):
+            return (0.0, 180.0)
+        if f.endswith('cap_angle_1'):
+            return (0.0, 1.0)
+        if f.endswith('cap_angle_between_180'):
+            return (-180.0, 180.0)
+        if f.endswith('Datelike>::ordinal'):
+            return (1.0, 366.0)
+        if f.endswith('NonZero::<T>::get'):
+            return (1.0, INF)
+        return TOP
+    return TOP
